@@ -14,7 +14,7 @@ ObservedReport ==
   LET t == Tr[l] IN
   /\ t.status = report'.status
   /\ t.verdict = report'.verdict
-  /\ (report'.verdict # "none") => t.named
+  /\ (report'.verdict \notin {"none", "custom"}) => t.named
   /\ t.has = report'.value.has
   /\ report'.value.has => t.value = report'.value.k
 
